@@ -22,6 +22,12 @@ if _log:
                 what = getattr(args[0], 'co_filename', '?')
                 if what.startswith('<frozen'):
                     return
+                # who asked for it: the innermost frame outside importlib
+                f = sys._getframe(1)
+                while f is not None and 'importlib' in f.f_code.co_filename:
+                    f = f.f_back
+                if f is not None:
+                    what = '%s\t%s\t%s' % (what, f.f_code.co_filename, f.f_code.co_name)
             elif event == 'compile':
                 what = str(args[1])
             else:
